@@ -119,11 +119,17 @@ fn c16_like_total() {
     assert!(r.is_some(), "like_on_well_formed_blob_is_ok");
 }
 fn like_agrees(x: &LikeIn) {
-    let got = BlobRef::match_pattern(&x.d[..x.n], &x.p[..x.m]);
+    // through the entry point the evaluator uses (BlobRef::like_bytes on the stored, length-prefixed value), so that a
+    // shortcut placed in front of the matcher is checked against the reference as well
+    let mut enc = [0u8; DMAX + 1];
+    enc[0] = (2 * x.n) as u8; // zig-zag varint of the data length
+    enc[1..].copy_from_slice(&x.d);
+    let blob = BlobRef::from(&enc[..x.n + 1]);
+    let got = okf(blob.like_bytes(&x.p[..x.m]));
     let want = ref_like(&x.d, x.n, &x.p, x.m);
-    assert!(got == want, "like_matches_reference");
+    assert!(got == Some(want), "like_matches_reference");
 }
-// @obl harness=c05_like_ref_plain id=C05.like_ref[no_escape] tier=quick funcs="BlobRef::match_pattern" bounds="data 0..=4 bytes, pattern 0..=3 bytes without backslash" unwind=14
+// @obl harness=c05_like_ref_plain id=C05.like_ref[no_escape] tier=quick funcs="BlobRef::like_bytes,BlobRef::match_pattern" bounds="data 0..=4 bytes, pattern 0..=3 bytes without backslash" unwind=14
 #[kani::proof]
 #[kani::unwind(14)]
 fn c05_like_ref_plain() {
@@ -133,7 +139,7 @@ fn c05_like_ref_plain() {
     kani::cover!(x.n == DMAX && x.m == PMAX, "reach");
     like_agrees(&x);
 }
-// @obl harness=c05_like_ref_escape_ok id=C05.like_ref[escape,no_%_before_it,not_ending_in_escaped_%] tier=quick funcs="BlobRef::match_pattern" bounds="data 0..=4 bytes, pattern 0..=3 bytes with an escape" assume="pattern does not end in a dangling backslash" unwind=14
+// @obl harness=c05_like_ref_escape_ok id=C05.like_ref[escape,no_%_before_it,not_ending_in_escaped_%] tier=quick funcs="BlobRef::like_bytes,BlobRef::match_pattern" bounds="data 0..=4 bytes, pattern 0..=3 bytes with an escape" assume="pattern does not end in a dangling backslash" unwind=14
 #[kani::proof]
 #[kani::unwind(14)]
 fn c05_like_ref_escape_ok() {
@@ -145,7 +151,7 @@ fn c05_like_ref_escape_ok() {
     like_agrees(&x);
 }
 // failing region 1: after a mismatch on an escaped byte the matcher backtracks to the `%` but keeps `in_escape` set
-// @obl harness=c05_like_ref_escape_after_pct id=C05.like_ref[escape_after_%] tier=quick funcs="BlobRef::match_pattern" bounds="data 0..=4 bytes, pattern 0..=3 bytes with an unescaped % before an escape" assume="pattern does not end in a dangling backslash" unwind=14
+// @obl harness=c05_like_ref_escape_after_pct id=C05.like_ref[escape_after_%] tier=quick funcs="BlobRef::like_bytes,BlobRef::match_pattern" bounds="data 0..=4 bytes, pattern 0..=3 bytes with an unescaped % before an escape" assume="pattern does not end in a dangling backslash" unwind=14
 #[kani::proof]
 #[kani::unwind(14)]
 fn c05_like_ref_escape_after_pct() {
@@ -156,7 +162,7 @@ fn c05_like_ref_escape_after_pct() {
     like_agrees(&x);
 }
 // failing region 2: "pattern exhausted, data left" accepts when the last pattern byte is '%' even if that % was escaped
-// @obl harness=c05_like_ref_trailing_escaped_pct id=C05.like_ref[ends_in_escaped_%,no_wildcard_%] tier=quick funcs="BlobRef::match_pattern" bounds="data 0..=4 bytes, pattern 0..=3 bytes ending in \\% without an unescaped %" unwind=14
+// @obl harness=c05_like_ref_trailing_escaped_pct id=C05.like_ref[ends_in_escaped_%,no_wildcard_%] tier=quick funcs="BlobRef::like_bytes,BlobRef::match_pattern" bounds="data 0..=4 bytes, pattern 0..=3 bytes ending in \\% without an unescaped %" unwind=14
 #[kani::proof]
 #[kani::unwind(14)]
 fn c05_like_ref_trailing_escaped_pct() {
